@@ -316,7 +316,7 @@ func main() { Main(run) }
 func run(args []string) error {
 	f := ParseFlags("c14", args)
 	g := &gen{NewRng(f.Seed)}
-	n := f.Budget(150, 5000)
+	n := f.Budget(120, 3000)
 	o := NewOut()
 	hist := Hist{}
 	caseJSON := map[string][]map[string]interface{}{}
